@@ -642,6 +642,22 @@ func c04PreemptProgs(tier string) []c04Preempt {
 		p.Threads = [][]string{{oRename("/d/x", "/e/x")}, ls}
 		out = append(out, c04Preempt{p, reps})
 	}
+	// same-directory: Rename(/d/a, /d/a.bak) — the new name has the old one as a STRING prefix, which
+	// must not be mistaken for "below the old name" — ‖ listings of /d: exactly one of the two names
+	{
+		p := &c04Prog{Focus: "preempt-same-dir", MaxDistinct: 6}
+		p.Setup = append(p.Setup, oMkdir("/d", 0o755), oCreate(1, "/d/a"), oCreate(1, "/d/z"), oMkdir("/q", 0o755))
+		for i := 0; i < 400; i++ {
+			p.Setup = append(p.Setup, oCreate(1, child("/q", i)))
+		}
+		var ls []string
+		for i := 0; i < 12; i++ {
+			p.Setup = append(p.Setup, oOpen(200+i, "/d"))
+			ls = append(ls, hNames(200+i))
+		}
+		p.Threads = [][]string{{oRename("/d/a", "/d/a.bak")}, ls}
+		out = append(out, c04Preempt{p, 2500 * k})
+	}
 	return out
 }
 
